@@ -13,7 +13,8 @@ TRUSTED_BASE = [
 ASSUMPTIONS = [
     "one goroutine uses the Conn at a time (waitResponse with concurrency() = 1); concurrent waiters are C10/C06's business",
     "a well-formed response answers exactly the one topic / one partition the Conn asked for (produce, fetch, list-offsets); frame size < 2^31",
-    "no read deadline expires during an exchange (checkTimeoutErr yields io.EOF, never RequestTimedOut); fetch = ReadBatchWith followed by Batch.Close without reading a message (reading the message set is C02's model); SASL raw (unframed, handshake v0) authentication and compressed message sets are not modelled",
+    "no read deadline expires during an exchange (checkTimeoutErr yields io.EOF, never RequestTimedOut); fetch = ReadBatchWith followed by Batch.Close without reading a message (reading the message set is C02's model; PART C checks the C17 predicate on fetch + ReadMessage directly on the implementation); SASL raw (unframed, handshake v0) authentication and compressed message sets are not modelled",
+    "io.ErrNoProgress (a response with a foreign correlation id) does not close the Conn: with one goroutine and the aligned streams proved here it needs a misbehaving broker",
 ]
 
 F2_KEYS = {
@@ -27,15 +28,23 @@ KEY_APIV = "C17-apiversions-cut-conn-not-closed"
 KEY_FCLOSE = "C17-fetch-close-swallows-cut"
 KEY_TAIL = "C17-error-response-cut-in-unread-tail"
 
-# fixed cases appended to the generated ones (ids continue): the cross-interpretation
-# witness of Properties/C11.v replayed on the real Conn.  produce v2 error 6 with throttle 6,
-# then heartbeats: ids 3,4,5 -> ErrNoProgress (Conn kept), id 6 accepts a foreign frame.
+# fixed regression case appended to the generated ones (ids continue): the former
+# cross-interpretation witness (Properties/C11.v C11_regression_former_cross_interpretation)
+# replayed on the real Conn: produce v2 error 6 with throttle 6, then heartbeats.
 def _hb(i):
     return "00000006%08x0000" % i
 CROSS_CASE = ("run 74 produce:2:0,heartbeat:0:0,heartbeat:0:0,heartbeat:0:0,heartbeat:0:0 "
               "0000002900000002000000010001740000000100000000000600000000000000050000000000000007" "00000006,"
               + ",".join(_hb(i) for i in (3, 4, 5, 6)) + " -")
 CROSS_FEATS = "fixed,cross,op=producev2,field=partition,code=6,next=heartbeatv0"
+
+
+# malformed counts (ApiVersions array -1, fetch v5 aborted transactions -2) used to panic (the
+# second with the read lock held: the next call hung); now an error and the Conn is closed
+NEG_CASES = [
+    "run 74 apiversions:0:0,heartbeat:0:0 0000000a000000020000ffffffff,00000006000000030000 - | | fixed,negcount,op=apiversionsv0",
+    "run 74 fetch:5:3,heartbeat:0:0 0000003500000002000000000000000100017400000001000000000000000000000000000a000000000000000a0000000000000000fffffffe,00000006000000030000 - | | fixed,negcount,op=fetchv5",
+]
 
 
 def feats_of(c):
@@ -78,7 +87,8 @@ def kind(cls):
 
 
 def predicate(c):
-    """The property evaluated directly on the implementation's output for one case.
+    """(The F2-* / C11-* / C17-* keys below name defects that were fixed in /repo; a key is
+    reported only if the defect comes back.)  The property evaluated directly on the implementation's output for one case.
     Returns a list of (key, what); empty = the case satisfies C11 / C17(Conn)."""
     f = feats_of(c)
     r = toks(c["go"])
@@ -90,10 +100,15 @@ def predicate(c):
             bad.append(("C17-panic-or-hang", f"operation outcome {cls}"))
     op = f.get("op", "")
     if "cross" in f:
+        # regression case: produce error (throttle 6) then heartbeats; before the F2 fix the
+        # fourth heartbeat "succeeded" on a foreign frame header after three ErrNoProgress
         ks = [kind(x) for x, _ in r]
-        if ks[0] == "kafka" and "ok" in ks[1:]:
-            bad.append((KEY_CROSS, "after a Kafka error left the stream misaligned, ErrNoProgress did not close the Conn and a later "
-                                   "operation succeeded on bytes of a foreign frame: " + c["go"]))
+        if ks[0] != "kafka" or any(k != "ok" for k in ks[1:]) or any(x != "0" for _, x in r):
+            bad.append((KEY_CROSS, "after a produce error the following heartbeats must each read their own frame: " + c["go"]))
+        return bad
+    if "negcount" in f:
+        if [kind(x) for x, _ in r] != ["fmt", "closed"] or any(x != "1" for _, x in r):
+            bad.append(("C17-negative-count-not-rejected", "a negative element count must be an error that closes the Conn: " + c["go"]))
         return bad
     if "drain" in f:
         return drain_predicate(c, f)
@@ -118,7 +133,7 @@ def predicate(c):
                 bad.append((key, f"{op} succeeded but the next operation ({f.get('next')}) returned {c2[:40]}, and {str(base)[:40]} on a fresh Conn"))
         elif k1 != "noprogress":
             # a framing / transport error: the Conn must be closed and the next call must fail
-            if x1 != "1" and not op.startswith("apiversions"):
+            if x1 != "1":
                 bad.append((f"C11-not-closed-after-{k1}-{op}", f"{op} failed with {c1[:40]} but the Conn was kept"))
             if k2 in ("ok", "kafka"):
                 bad.append((f"C11-usable-after-{k1}-{op}", f"{op} failed with {c1[:40]} and the next operation returned {c2[:40]}"))
@@ -232,7 +247,7 @@ def run_cases(ctx):
         raise L.Fail("correspondence", "harness cmd/c11 crashed", (out[-1500:] + err[-2500:]))
     cases = L.parse_cases(out)
     # fixed cases and the corpus, re-run on the real Conn
-    extra = [CROSS_CASE + " | | " + CROSS_FEATS]
+    extra = [CROSS_CASE + " | | " + CROSS_FEATS] + NEG_CASES
     cdir = os.path.join(L.CORPUS, "C11")
     if os.path.isdir(cdir):
         for fn in sorted(os.listdir(cdir)):
@@ -308,11 +323,8 @@ RULE = ("PART A (exhaustive, no randomness in the structure): every (operation, 
 def correspondence(ctx):
     cases, res = run_cases(ctx)
     ev = evaluate(cases, res, lambda f: True)
-    cut_keys = (KEY_APIV, KEY_FCLOSE, KEY_TAIL)
-    is_cut = lambda k: k in cut_keys or str(k).startswith("C17-drain")
-    failures = [f for f in ev["failures"] if not is_cut(f.get("key"))]
-    notes = ev["notes"] + ["C17 (Conn half) finding, reported through conn_cut_cases: " + f["key"] + ": " + f["what"][:200]
-                           for f in ev["failures"] if is_cut(f.get("key"))]
+    failures = ev["failures"]
+    notes = ev["notes"]
     sel = ev["sel"]
     n_exh = sum(1 for c in sel if "exh" in feats_of(c))
     samples = [c["line"][:260] + " | " + c["go"][:120] + " | " + c["feats"]
